@@ -3,7 +3,7 @@
 
    Mirrors, function by function (names: Python name, or [drv_]<name> where Spec/TargetCore.v already
    uses the Python name):
-     cip_driver.py    with_forward_open (75-102), CIPDriver.__enter__/__exit__ (143-157), open (297-319),
+     cip_driver.py    with_forward_open (75-102), _abandon_transport (603-618), CIPDriver.__enter__/__exit__ (143-157), open (297-319),
                       _register_session (321-339), _forward_open (341-403), close (405-432),
                       _un_register_session (434-441), _forward_close (443-482), generic_message (484-562:
                       the connected / unconnected choice with data_type None), send (564-582),
@@ -51,10 +51,6 @@ Fixpoint flookup (k : nat) (l : list (nat * fkind)) : option fkind :=
   | (k', v) :: r => if Nat.eqb k k' then Some v else flookup k r
   end.
 Definition fmem (k : nat) (l : list nat) : bool := existsb (Nat.eqb k) l.
-
-(* the guard of C10: no fault that leaves a reply in the socket to be read by a LATER request *)
-Definition late_reply_free (f : faults) : bool :=
-  match f_send_after f, f_recv f with [], [] => true | _, _ => false end.
 
 (* ================================================================ driver state *)
 Record dstate := mkD {
@@ -136,7 +132,8 @@ Definition epath_len (p : bytes) (pad : bool) : res bytes :=
 Definition wrap_unconnected_send (message route_path : bytes) : res bytes :=
   if in_urange 2 (blen message)
   then Ok (SVC_UNCONNECTED_SEND ++ CM_REQUEST_PATH ++ PRIORITY ++ TIMEOUT_TICKS ++ le_enc 2 (blen message)
-           ++ message ++ (if Z.odd (blen message) then [0] else []) ++ route_path)
+           ++ message ++ (if Z.odd (blen message) then [0] else [])
+           ++ match route_path with [] => [0; 0] | _ => route_path end)        (* `route_path or b"\x00\x00"` *)
   else Err DataError.
 
 (* ================================================================ what the response classes decide *)
@@ -286,17 +283,37 @@ Definition sock_close (flt : faults) (w : world) : world * res unit :=
 (* ================================================================ the driver *)
 Definition st := (world * dstate)%type.
 
-(* CIPDriver._send: `self._sock.send(message)` under `except Exception -> CommError` (None has no .send) *)
+Definition reset_driver (d : dstate) : dstate :=
+  set_opened false (set_session 0 (set_tconn false (set_sock false d))).
+
+(* CIPDriver._abandon_transport: the socket is closed (its own failure is only logged) and never used
+   again; _sock = None, _target_is_connected = False, _session = 0, _connection_opened = False *)
+Definition abandon_transport (flt : faults) (s : st) : st :=
+  let (w, d) := s in
+  ((if d_sock d then fst (sock_close flt w) else w), reset_driver d).
+
+(* CIPDriver._send: `self._sock.send(message)` under `except Exception` (None has no .send):
+   _abandon_transport(), then CommError *)
 Definition tx (flt : faults) (s : st) (frame : bytes) : st * res unit :=
   let (w, d) := s in
-  if d_sock d then let (w', r) := sock_send flt w frame in ((w', d), wrap_all CommError r)
-  else (s, wrap_all CommError (Err (Foreign AttributeError))).
+  if d_sock d then
+    let (w', r) := sock_send flt w frame in
+    match r with
+    | Ok _ => ((w', d), Ok tt)
+    | Err _ => (abandon_transport flt (w', d), Err CommError)
+    end
+  else (abandon_transport flt s, Err CommError).
 
 (* CIPDriver._receive *)
 Definition rx (flt : faults) (s : st) : st * res bytes :=
   let (w, d) := s in
-  if d_sock d then let (w', r) := sock_recv flt w in ((w', d), wrap_all CommError r)
-  else (s, wrap_all CommError (Err (Foreign AttributeError))).
+  if d_sock d then
+    let (w', r) := sock_recv flt w in
+    match r with
+    | Ok raw => ((w', d), Ok raw)
+    | Err _ => (abandon_transport flt (w', d), Err CommError)
+    end
+  else (abandon_transport flt s, Err CommError).
 
 (* CIPDriver.send: build_request (its errors escape as they are), _send, _receive unless no_response.
    [None] = no reply expected. *)
@@ -598,9 +615,6 @@ Definition drv_un_register_session (flt : faults) (s : st) : st * res unit :=
   | Err e => (s1, Err e)
   | Ok _ => (s1, Ok tt)
   end.
-
-Definition reset_driver (d : dstate) : dstate :=
-  set_opened false (set_session 0 (set_tconn false (set_sock false d))).
 
 (* CIPDriver.close *)
 Definition drv_close (flt : faults) (s : st) : st * res unit :=
